@@ -40,6 +40,12 @@ def gen(rng, idx, tier):
     cfg = rng.choice([{}, {}, {}, {"exclude_pgns": [129029, "gnssPositionData"]}, {"preferred_units": {"ANGLE": "deg"}},
                       {"include_pgns": [127250, 60928]}, {"build_network_map": True}])
     script, info = session.gen_script(rng, kind)
+    long_outage = rng.random() < 0.004
+    if long_outage:
+        # the gateway is away for hours ("retries for as long as needed"): > 1000 consecutive refusals, then healthy
+        final = script[-1]
+        script = [{"a": "refuse", "lat": 0.0} for _ in range(rng.choice([1040, 1100]))] + [final]
+        info["write_fail_entries"] = []
     ops = [{"at": 0.0, "op": "connect", "id": 0}]
     oid = 1
     if rng.random() < 0.3:
@@ -60,7 +66,8 @@ def gen(rng, idx, tier):
     recv = session.cb_faults(rng, 40, delays=(0.001, 0.1, 1.0)) if rng.random() < 0.3 else {"raise": [], "delay": {}}
     slack = sum(status["delay"].values()) + sum(recv["delay"].values())
     return {"client": kind, "config": cfg, "script": script, "ops": ops, "cb": {"status": status, "recv": recv},
-            "knobs": {"min_end": 5.0, "tail": RECOVER_S + 10.0, "max_end": 3000.0 + slack, "hb": 1.0}}
+            "knobs": {"min_end": 5.0, "tail": RECOVER_S + 10.0, "max_end": (3000.0 if not long_outage else 20000.0) + slack,
+                      "hb": 1.0 if not long_outage else 10.0}}
 
 
 def _attempt_index(script, si):
@@ -265,6 +272,8 @@ def evaluate(plan, o, prefix="C13"):
                 st["backoff_reached_cap(>=6 consecutive failures)"] = st.get("backoff_reached_cap(>=6 consecutive failures)", 0) + 1
         else:
             run = 0
+    if len(o.attempts) > 1000:
+        st["long_outage(>1000 consecutive refusals)"] = 1
     nfaults = sum(1 for c in conns if c["fault"] is not None) + sum(1 for a in o.attempts if a["result"] != "accepted")
     return {"violations": v, "digest": o.digest, "stats": st, "nontrivial": nfaults > 0 and len(o.recv) > 0,
             "vtime": o.end_vt}
